@@ -73,7 +73,7 @@ class SourceStart(SourceSeg):
     def clauses(self):
         return [
             Clause('C18.at_most_one_polling_loop', ['C18'], when='return', text='live + schedules_run() <= 1',
-                   kind='protocol',
+                   kind='protocol', replay={'scenario': 'source_restart_two_loops'},
                    note='P1: starting must not create a second polling loop while an earlier one is still alive'),
             Clause('C18.start_of_a_started_source_has_no_effect', ['C18'], when='return',
                    text='implies(not old(self.stopped), schedules_run() == 0 and not self.stopped)'),
